@@ -96,14 +96,23 @@ type Req struct {
 }
 
 // Planet is the fake server. One Planet serves one directory at a time (Load swaps it), so
-// lookups against it must be sequential.
+// lookups against it must be sequential; the requests of one lookup may be concurrent.
+//
+// Every Load opens a new epoch, and BaseURL carries it as the first path segment
+// (/e<epoch>), so each request says itself which lookup it belongs to. A client may cancel
+// a request in flight and net/http may still run its handler later — after the lookup has
+// returned and the next directory has been loaded. Such a request is judged against nothing:
+// it is counted in LateRequests and answered 410.
 type Planet struct {
 	Server *httptest.Server
 	// Prefix is a path prefix in front of /replication (a mirror below a sub-path); the
-	// library's BaseURL must then be Server.URL + Prefix.
+	// library's BaseURL must be BaseURL().
 	Prefix string
 
 	mu         sync.Mutex
+	epoch      int64 // epoch of the loaded directory
+	closed     bool  // Observed has been called: the lookup of this epoch is over
+	late       int64 // requests that arrived for a finished epoch
 	dir        *Dir
 	decPrefix  string            // Prefix with its percent escapes decoded
 	bodies     map[uint64][]byte // rendered state files of dir (they can be 64 KiB)
@@ -125,7 +134,21 @@ func NewPlanet() *Planet {
 func (p *Planet) Close() { p.Server.Close() }
 
 // BaseURL is what the library's Datasource.BaseURL must be set to.
-func (p *Planet) BaseURL() string { return p.Server.URL + p.Prefix }
+func (p *Planet) BaseURL() string {
+	p.mu.Lock()
+	defer p.mu.Unlock()
+	return fmt.Sprintf("%s/e%d%s", p.Server.URL, p.epoch, p.Prefix)
+}
+
+// TakeLate returns and resets the number of requests that arrived after the lookup they
+// belong to had finished.
+func (p *Planet) TakeLate() int64 {
+	p.mu.Lock()
+	defer p.mu.Unlock()
+	n := p.late
+	p.late = 0
+	return n
+}
 
 // Load installs a directory and a request budget, and clears the request log.
 func (p *Planet) Load(d *Dir, budget int, prefix string) {
@@ -134,22 +157,25 @@ func (p *Planet) Load(d *Dir, budget int, prefix string) {
 		p.bodies = map[uint64][]byte{}
 	}
 	p.dir, p.budget, p.count = d, budget, 0
+	p.epoch++
+	p.closed = false
 	p.Prefix = prefix
 	p.decPrefix = prefix
 	if dec, err := url.PathUnescape(prefix); err == nil {
 		p.decPrefix = dec
 	}
-	p.log = p.log[:0]
+	p.log = nil
 	p.unexpected = nil
 	p.seqSeen = map[uint64]int{}
 	p.mu.Unlock()
 }
 
-// Observed returns what the server saw since Load: number of requests, the log, the paths
+// Observed ends the epoch of the loaded directory and returns what the server saw since Load: number of requests, the log, the paths
 // outside the documented layout and how often each state sequence number was requested.
 func (p *Planet) Observed() (count int, log []Req, unexpected []string, perSeq map[uint64]int) {
 	p.mu.Lock()
 	defer p.mu.Unlock()
+	p.closed = true // whatever arrives from now on belongs to a finished lookup
 	return p.count, append([]Req(nil), p.log...), append([]string(nil), p.unexpected...), p.seqSeen
 }
 
@@ -158,6 +184,23 @@ func (p *Planet) Observed() (count int, log []Req, unexpected []string, perSeq m
 func SeqPath(n uint64) string {
 	s := fmt.Sprintf("%09d", n)
 	return s[:len(s)-6] + "/" + s[len(s)-6:len(s)-3] + "/" + s[len(s)-3:]
+}
+
+// splitEpoch splits /e<digits>/rest into the epoch and /rest.
+func splitEpoch(path string) (int64, string, bool) {
+	if len(path) < 3 || path[0] != '/' || path[1] != 'e' {
+		return 0, "", false
+	}
+	i := 2
+	var e int64
+	for i < len(path) && path[i] >= '0' && path[i] <= '9' {
+		e = e*10 + int64(path[i]-'0')
+		i++
+	}
+	if i == 2 || (i < len(path) && path[i] != '/') {
+		return 0, "", false
+	}
+	return e, path[i:], true
 }
 
 // parseSeqPath accepts exactly DDD/DDD/DDD.
@@ -183,6 +226,23 @@ func (p *Planet) handle(w http.ResponseWriter, r *http.Request) {
 	p.mu.Lock()
 	defer p.mu.Unlock()
 	path := r.URL.Path
+	// the epoch segment says which lookup the request belongs to
+	if e, rest, ok := splitEpoch(path); ok {
+		if e != p.epoch || p.closed {
+			p.late++
+			w.Header().Set("Content-Length", "0")
+			w.WriteHeader(http.StatusGone)
+			return
+		}
+		path = rest
+	} else if p.closed {
+		p.late++
+		w.Header().Set("Content-Length", "0")
+		w.WriteHeader(http.StatusGone)
+		return
+	} else {
+		path = "(no epoch segment)" + path // not below the configured base URL at all
+	}
 	if r.URL.RawQuery != "" {
 		path += "?" + r.URL.RawQuery
 	}
@@ -190,8 +250,12 @@ func (p *Planet) handle(w http.ResponseWriter, r *http.Request) {
 	p.count++
 	if len(p.log) < 4096 {
 		rq := Req{Path: path, Status: status}
-		if r.RequestURI != path {
-			rq.Raw = r.RequestURI
+		raw := r.RequestURI
+		if _, rest, ok := splitEpoch(raw); ok {
+			raw = rest
+		}
+		if raw != path {
+			rq.Raw = raw
 		}
 		p.log = append(p.log, rq)
 	}
